@@ -16,6 +16,9 @@
 // C01_parse.cpp: fcppt::parse::parse_string / phrase_parse_string.
 // C01_env.cpp:   locales with user-installed codecvt facets (std::codecvt_utf8, a scripted facet), throwing user callbacks.
 // C01_stream.cpp: stream consumers on scripted stream buffers, on streams in every state / exception mask, on file streams.
+// C01_more.cpp:  time, error, getenv, type_name, args, string / enum helpers (see its header comment).
+// C01_more2.cpp: dynamic / pointer / value casts.
+// C01_more3.cpp: floating point vector / matrix / interpolation functions, options / parse error output.
 #include "C01_common.hpp"
 
 #include <fcppt/cast/truncation_check.hpp>
@@ -524,5 +527,8 @@ int main(int argc, char **argv)
   c01::register_parse();
   c01::register_env();
   c01::register_streams();
+  c01::register_more();
+  c01::register_more_casts();
+  c01::register_more_math();
   return vrt::run(argc, argv);
 }
